@@ -198,6 +198,62 @@ pub fn minimize(def: &PropDef, sc: &Scenario, v: &Violation, budget: Duration) -
                 break;
             }
         }
+        // 2c. remove a line of a didOpen text and renumber the lines of the later edits of that
+        //     document (keeps positions meaningful, which plain text shrinking does not)
+        for i in 0..best.script.len() {
+            let ClientOp::Open { uri, .. } = best.script[i].op.clone() else { continue };
+            let mut line = 0usize;
+            loop {
+                if out_of_time(&t0) {
+                    break;
+                }
+                let ClientOp::Open { text, .. } = best.script[i].op.clone() else { break };
+                let lines: Vec<&str> = text.split_inclusive('\n').collect();
+                if line >= lines.len() || lines.len() < 2 {
+                    break;
+                }
+                let mut c = best.clone();
+                let mut l = lines.clone();
+                l.remove(line);
+                c.script[i].op = ClientOp::Open { uri: uri.clone(), text: l.concat() };
+                let mut ok = true;
+                for st in c.script.iter_mut().skip(i + 1) {
+                    match &mut st.op {
+                        ClientOp::Open { uri: u, .. } if *u == uri => break,
+                        ClientOp::Change { uri: u, edits } if *u == uri => {
+                            for e in edits.iter_mut() {
+                                if let Some(r) = e.range.as_mut() {
+                                    if r[0] as usize == line || r[2] as usize == line {
+                                        ok = false;
+                                    }
+                                    if r[0] as usize > line {
+                                        r[0] -= 1;
+                                    }
+                                    if r[2] as usize > line {
+                                        r[2] -= 1;
+                                    }
+                                }
+                            }
+                        }
+                        ClientOp::Request { uri: u, line: rl, .. } if *u == uri => {
+                            if *rl as usize > line {
+                                *rl -= 1;
+                            }
+                        }
+                        _ => {}
+                    }
+                }
+                if ok {
+                    if let Some(w) = still(def, &c, &bestv) {
+                        best = c;
+                        bestv = w;
+                        progress = true;
+                        continue; // same index now holds the next line
+                    }
+                }
+                line += 1;
+            }
+        }
         // 3. drop barriers
         for i in 0..best.script.len() {
             if best.script[i].wait && !out_of_time(&t0) {
